@@ -23,6 +23,10 @@ CLAIMED = {
    text='Decides structural clauses of the compiler-side transaction state: snapshot-field agreement of rollback/commit down to TransactionState; implicit-transaction guards dominate savepoint commands and COMMIT; _state0 frozen and updates persistent; statement class / state method / TxAction / SQL verb agreement per branch and exhaustiveness over Transaction subclasses; COMMIT reads if-updated values before the baseline reset; savepoint loop orderings (test-before-erase vs erase-before-test, newest-first, raise on no match); re-synchronisation shape incl. sync before compile; migration blocks pair their savepoint. Same-named savepoint stack behaviour and the Cython dbview are not decided.',
    note=NOTE,
    technique='static analysis: table extraction (class/method/enum/SQL-literal word agreement), CFG dominance and ordering queries, field-set agreement across call chains'),
+ 'C19': dict(
+   text='Decides structural clauses of configuration handling: coercion dominates every storage write and storage is only rebound to persistent-operation results; opcode and scope exhaustiveness; lookup order (first hit wins, given order, default; compiler passes session, database, system); JSON key agreement, SQL operation-row order vs Operation.from_json and opcode validity per IR class, case-split agreement of the value converters; ScalarType kind coverage across sibling functions; opcode-to-storage-operation agreement; static evaluation maps each ConfigCommand to its namesake opcode with scope and name unchanged. Value-level text round trips are not decided.',
+   note=NOTE + ' The Cython consumers (protocol/execute.pyx, dbview.pyx) are out of reach.',
+   technique='static analysis: CFG dominance (validate-before-write), enum/branch exhaustiveness, writer/reader table agreement incl. SQL row producers, sibling-function case coverage over the class hierarchy'),
 }
 
 _PENDING = 'check not built yet in this round (design in DESIGN.md §3); will be claimed when its rules are armed'
